@@ -154,6 +154,13 @@ RemoveParaOK(pre, i, post) ==     \* i is 0-based
                \E x \in RunLo(pre.lines, from)..from, y \in to..RunHi(pre.lines, to) :
                   NB(post.lines) = NB(Without(pre.lines, x..y))
 
+(* Reformatting the whole document without sorting or rebuilding paragraphs (C07 seen from the list model): *)
+(* the paragraph list is unchanged, only blank lines are added or removed, everything re-reads.            *)
+WrapDocOK(pre, post) ==
+  /\ post.api = pre.api
+  /\ NB(post.lines) = NB(pre.lines)
+  /\ ReRead(post)
+
 \* ---------------------------------------------------------------- one observed step
 \* ev: [op, p, k, k2, v, i, ret]; pre/post: [lines, term, api, rr, rapi, hs]
 StepOK(pre, ev, post) ==
@@ -164,5 +171,6 @@ StepOK(pre, ev, post) ==
     [] ev.op = "add_para"    -> AddParaOK(pre, post)
     [] ev.op = "insert_para" -> InsertParaOK(pre, ev.i, post)
     [] ev.op = "remove_para" -> RemoveParaOK(pre, ev.i, post)
+    [] ev.op = "wrap"        -> WrapDocOK(pre, post)
     [] OTHER -> FALSE
 =============================================================================
